@@ -17,6 +17,7 @@ reg("T4", termination.rule_T4, 4)
 
 for _i, _f in enumerate(("S1", "S2", "S3", "S4", "S5", "S6", "S7", "S8", "S9"), 1):
     reg(_f, getattr(streams, "rule_" + _f), 2)
+reg("S4p", streams.rule_S4p, 2)
 
 for _f in ("D1", "D2", "D3", "D4", "D1a", "D1r", "D3a", "D3r"):
     reg(_f, getattr(decoders, "rule_" + _f), 1)
@@ -38,7 +39,7 @@ reg("L8r", flow.rule_L8r, 30)
 reg("L8a", flow.rule_L8a, 8)
 reg("L8c", flow.rule_L8c, 10)
 
-for _f, _n in (("N1", 10), ("N2", 10), ("N3", 10), ("N4", 10), ("N5", 8), ("N6", 6), ("N7", 6), ("N8", 8), ("N9", 20), ("X1", 10)):
+for _f, _n in (("N1", 10), ("N2", 10), ("N3", 10), ("N4", 10), ("N5", 8), ("N6", 6), ("N7", 6), ("N8", 8), ("N9", 20), ("N10", 2), ("N11", 2), ("X1", 10)):
     reg(_f, getattr(names, "rule_" + _f), _n)
 
 for _f, _n in (("P1", 10), ("P2", 6), ("P3", 4), ("P4", 8), ("P5", 15), ("P6", 8), ("P7", 12)):
@@ -50,7 +51,7 @@ for _f, _n in (("B1", 25), ("B2", 20), ("B3", 5)):
 for _f, _n in (("Q1", 20), ("Q2", 12), ("Q3", 4), ("Q4", 3), ("C1", 15), ("C2", 5)):
     reg(_f, getattr(cue, "rule_" + _f), _n)
 
-for _f, _n in (("I1", 12), ("I2", 6), ("I3", 3), ("I4", 5), ("O1", 6), ("R1", 1)):
+for _f, _n in (("I1", 10), ("I2", 6), ("I3", 3), ("I4", 5), ("I5", 6), ("O1", 6), ("R1", 1)):
     reg(_f, getattr(isolation, "rule_" + _f), _n)
 
 for _f, _n in (("F1", 3), ("F2", 3), ("F3", 3), ("F4", 2), ("F5", 10), ("F6", 15)):
@@ -69,17 +70,17 @@ def _p(rules, explanation, extra_assumptions=()):
 NOT = " NOT decided (runtime remainder): "
 
 PROPS = {
-    "C01": _p(["L1a", "L2", "L8a", "S1", "S3", "S4", "D1a", "D2", "D3a", "D4", "L7", "P7", "N1", "N9", "N5", "S5", "R1"],
+    "C01": _p(["L1a", "L2", "L8a", "S1", "S3", "S4p", "D1a", "D2", "D3a", "D4", "L7", "P7", "N1", "N9", "N5", "S5", "R1"],
               "Structural necessary conditions of byte-exact AKAI export: evaluated construct layouts of partition/volume/file-entry/sample-header "
               "(offset, width, sign, endianness, data-window terms offset = header_end + 2*play_start, size = 2*(play_end - play_start)) equal the reviewed "
               "reference (L1a, L2); both sample type bytes reach the sample parser (L8a); chain walk shape (S1), address maps (S3), multi-sector split "
-              "accounting incl. the zero-size / exact-sector-end guard (S4), clip/advance of reads (S5); SAT decoder exits install their links and only at END "
+              "accounting (S4p: all of S4 except the empty-request guard, which since the G13 repair no longer affects an export), clip/advance of reads (S5); SAT decoder exits install their links and only at END "
               "words (D1, D3) with the documented flag values (D2); segment/file streams built from get_path (D4); export walk hands every sample over once and "
               "writes one truncated 'wb' file per `Exported` line with the header's rate (P7, L7); streams rewound before export (R1)." + NOT +
               "byte equality of outputs; that the decoded SAT equals the intended allocation for every table; directory reserved-run handling beyond D1/D3. "
               "Known finding G7 (head-not-lowest chains are truncated) is reported as KNOWN-FINDING.",
               ["the reviewed layout reference (sa/reference/layouts.json) matches the AKAI S1000/S3000 format as documented (140-byte sample header, 150-byte keygroup)"]),
-    "C02": _p(["L1r", "L2", "L4", "L5", "L8r", "D1r", "D2", "D3r", "D4", "S3", "S7", "T1", "O1", "N1", "N9", "S4", "S5"],
+    "C02": _p(["L1r", "L2", "L4", "L5", "L8r", "D1r", "D2", "D3r", "D4", "S3", "S7", "T1", "O1", "I5", "N1", "N9", "S4p", "S5"],
               "Structural necessary conditions of byte-exact Roland export: record addressing terms ENTRY_SIZE*index + AREA_OFFSET per kind/area with MAX_NUM bounds "
               "(L4), contiguous area geometry (L5), struct sizes = the repository's constants (L2), full evaluated layout of the image struct against the reviewed "
               "reference (L1r); loop mode -> window [2*start, 2*(END-start+1)) with END per mode and StreamReversed for exactly the two reverse modes, handler map total "
@@ -96,7 +97,7 @@ PROPS = {
               "little-endian chunk ids, Rebuild terms byte_rate = rate*channels*bits//8 and block_align = channels*bits//8, loop count = len(loops) (L1w, L2); chunk append order "
               "fmt,[smpl],data; fmt values; destination encoding; output opened with builtin open(path,'wb') (L7); every data block trimmed to whole frames of that stream (P5)." + NOT +
               "that construct's Prefixed computes sizes correctly; smpl field value ranges; samples whose export raises."),
-    "C05": _p(["P1", "P2", "P3", "P6", "P5", "P7", "N3", "N7"],
+    "C05": _p(["P1", "P2", "P3", "P6", "P5", "P7", "N3", "N7", "R1", "N5"],
               "Decides the pairing clauses: marks and index keyed by export name only, every iteration path emits exactly one sample or skips a consumed one, partner marked iff "
               "combined (P1); by case analysis over the regex group (L|R) the first combine_stereo argument is always the L sample, partner name = stem+separator+other suffix, "
               "merged name = stem (P2); left streams then right streams, channel count = number of streams (P3); frame-major interleave / de-interleave idioms and end-padding (P6); "
@@ -118,11 +119,11 @@ PROPS = {
               "that amount, seek = clamp(base(whence)+offset, 0, end), no subclass overrides read/seek/tell/readall (S5); window and reversed translations incl. alignment errors and the "
               "reshape/flip idiom (S7); address maps as affine terms on every path (S3); split accounting, first/middle/last piece indices, zero-size guard, length check (S4); re-sync "
               "before every underlying read (S6)." + NOT + "equality with a reference model over operation histories; empty views; short reads of the underlying file."),
-    "C09": _p(["C1", "C2", "S8", "S3", "L1c", "L2", "Q3"],
+    "C09": _p(["C1", "C2", "S8", "S3", "L1c", "L2", "Q3", "Q2"],
               "Decides: detection cascade order and the stream each probe/parser receives (C1); data-track existential and CDDA branch (C2); every probe restores the borrowed stream's "
               "position on every normal exit (S8); MDF geometry 2352 = 16+2048+288, size = (n // 2352) * 2048 (S3); MDX window offset = sizeof(header), size = eof - offset; container "
               "header layouts (L1c, L2); ASCII probe and fallbacks (Q3)." + NOT + "equality of ls/export across the five encodings."),
-    "C10": _p(["N6", "N1", "N2", "N4", "N7", "N8", "X1", "T1"],
+    "C10": _p(["N6", "N1", "N2", "N4", "N7", "N8", "X1", "T1", "N10", "N11"],
               "Decides: listing shows safe_name of every child and lookup compares the same attribute through the same normaliser (N6); safe names exist and are de-duplicated at every "
               "level (N1, N2, N7) and are blank-stripped (N4); every lookup failure inside parse_path is converted to ErrorInvalidPath, ls prints it and returns; whole path stripped, "
               "split on / and \\, trailing empty token dropped (N8); tokeniser loop terminates (T1)." + NOT +
@@ -142,12 +143,12 @@ PROPS = {
               "size>=1 guard), READ-UNTIL-EMPTY, ANCESTOR (T1); no `for` grows its own iterable (T2); every cycle of the resolved call graph is in a confirmed table with its side condition "
               "re-checked (T3); image-controlled counts/sizes are width-bounded or lazy (T4)." + NOT + "complexity constants; loops inside construct/numpy; peak memory.",
               ["sector_length/buffer_length attributes are positive (constructor sites pass positive constants)", "the element parent relation is a tree"]),
-    "C14": _p(["I1", "I4", "L1t", "L4", "L2", "S1", "S2"],
+    "C14": _p(["I1", "I5", "I4", "L1t", "L4", "L2", "S1", "S2"],
               "Decides: in the AKAI file-table loop the handler re-seeks to entry start + entry size and continues; in lazy file realisation the error path appends nothing and continues; "
               "the four Roland sample references and tolerant lists skip a failing element; Roland records are addressed absolutely (Computed/Pointer/Lazy only) so element i cannot shift "
               "element j (I1, L4); 24-byte file entries / record layouts (L1t, L2); out-of-range start sectors raise the exception the loop swallows (S1, S2)." + NOT +
               "damage that still parses (a start sector pointing into another file's chain); equality of the other items' audio."),
-    "C15": _p(["S4", "S9", "T1", "L1w", "I1", "I4", "P5"],
+    "C15": _p(["S4p", "S9", "T1", "L1w", "I1", "I5", "I4", "P5"],
               "Decides: a short sector read is detected on every returning path of SectorStream._read (S4e) and ends the data stream instead of aborting (S9); partition scan leaves its "
               "loop on the first unparsable header (T1-STREAM-PARSE exits); length prefixes wrap the streamed data (L1w); unreadable files are skipped without stopping the remaining ones "
               "(I1); whole-frame blocks (P5)." + NOT + "prefix equality; which files are reported for which cut."),
